@@ -11,8 +11,6 @@
 //! drops the rest of its own line) and K2 (a read stream closes with its last real line instead
 //! of after the empty line TeX appends).
 
-use std::collections::BTreeMap;
-
 use serde::{Deserialize, Serialize};
 
 use crate::c01::{add_fault_counters, components_json, panic_site};
@@ -1044,9 +1042,9 @@ fn eval_limit(case: &LimitCase, ev: &mut Evaluation) {
         }
         (LineResult::Err(e), None) => {
             ev.bump("reach.input_limit_error");
-            if !e.title.contains("too many input levels") {
-                ev.violation = fail(format!("self-including file ended in `{}`", e.title));
-            } else if !(98..=102).contains(&depth) {
+            // Any structured error is accepted (the wording may change); what is checked is that
+            // the nesting stopped at the documented depth.
+            if !(98..=102).contains(&depth) {
                 ev.violation = fail(format!("self-including file reached depth {depth}, documented limit is 100"));
             }
         }
@@ -1062,8 +1060,8 @@ fn eval_limit(case: &LimitCase, ev: &mut Evaluation) {
         (LineResult::Err(e), Some(n)) => {
             if n <= 90 {
                 ev.violation = fail(format!("a chain of {n} nested files failed with `{}` at depth {depth}", e.title));
-            } else if n >= 103 && !e.title.contains("too many input levels") {
-                ev.violation = fail(format!("chain of {n} failed with `{}`", e.title));
+            } else if n >= 103 && !(98..=102).contains(&depth) {
+                ev.violation = fail(format!("chain of {n} failed with `{}` at depth {depth}", e.title));
             } else {
                 ev.bump("reach.input_limit_error");
             }
